@@ -38,8 +38,9 @@ pub fn emit_pool_initialized(e: PoolInitialized) { unimplemented!() }
 /// C19: success implies both mints are admitted with the badge issued by THIS config for THAT mint, the mints are ordered and distinct, the price is within the
 /// protocol bounds, the pool carries the fee tier's default rate (<= 6%) and the config's protocol rate (<= 25%), the given spacing, the two vault accounts, and starts empty
 //@ fn instructions/v2/initialize_pool.rs handler -> r as=initialize_pool_v2_handler canary
-    requires tick_spacing > 0, // enforced by the fee tier account constraint (fee_tier.tick_spacing == tick_spacing; fee tiers have a non-zero spacing)
+    requires constraints_InitializePoolV2(old(ctx.accounts), tick_spacing), old(ctx.accounts).fee_tier.data.tick_spacing > 0, // fee tiers have a non-zero spacing (FeeTier::initialize)
     ensures
+        r is Ok ==> old(ctx.accounts).fee_tier.data.whirlpools_config == old(ctx.accounts).whirlpools_config.k && old(ctx.accounts).fee_tier.data.tick_spacing == tick_spacing, // the pool takes its rate from a fee tier of ITS config for ITS spacing
         r is Ok ==> mint_supported(old(ctx.accounts).token_mint_a.data, badge_ok(old(ctx.accounts).token_badge_a, old(ctx.accounts).whirlpools_config.k, old(ctx.accounts).token_mint_a.data.k)),
         r is Ok ==> mint_supported(old(ctx.accounts).token_mint_b.data, badge_ok(old(ctx.accounts).token_badge_b, old(ctx.accounts).whirlpools_config.k, old(ctx.accounts).token_mint_b.data.k)),
         r is Ok ==> ({ let w = final(ctx.accounts).whirlpool.data; let a0 = old(ctx.accounts);
@@ -61,8 +62,9 @@ impl<'info, T> Program<'info, T> { pub fn key(&self) -> (r: Pubkey) ensures r ==
 //@ struct instructions/initialize_pool.rs InitializePool
 //@ constraints instructions/initialize_pool.rs InitializePool
 //@ fn instructions/initialize_pool.rs handler -> r as=initialize_pool_handler canary
-    requires tick_spacing > 0,
+    requires constraints_InitializePool(old(ctx.accounts), tick_spacing), old(ctx.accounts).fee_tier.data.tick_spacing > 0,
     ensures
+        r is Ok ==> old(ctx.accounts).fee_tier.data.whirlpools_config == old(ctx.accounts).whirlpools_config.k && old(ctx.accounts).fee_tier.data.tick_spacing == tick_spacing,
         r is Ok ==> ({ let w = final(ctx.accounts).whirlpool.data; let a0 = old(ctx.accounts);
             &&& pk_lt(a0.token_mint_a.k, a0.token_mint_b.k) && price_ok(initial_sqrt_price as int)
             &&& w.token_mint_a == a0.token_mint_a.k && w.token_mint_b == a0.token_mint_b.k
